@@ -9,7 +9,7 @@ import (
 )
 
 // Schedulers the generator may pick for C12 (weights by repetition).
-var vfC12Kinds = []string{"rr", "rr", "p9218", "p9218", "rand", "rand"}
+var vfC12Kinds = []string{"rr", "rr", "p9218", "p9218", "rand", "rand", "p7540", "p7540", "p7540"}
 
 // VerifC12Gen generates one history for a randomly chosen scheduler.
 func VerifC12Gen(r *vu.Rng, i int) []string {
@@ -165,7 +165,9 @@ func vfGen(r *vu.Rng, kind string) []string {
 			g.add("win %d %d", id, d)
 		case x < 67:
 			g.add("maxframe %d", maxFrames[r.Intn(len(maxFrames))])
-		case x < 69 && g.violate:
+		case x < 71:
+			g.add("dump")
+		case x < 73 && g.violate:
 			// contract violations (the oracle switches itself off; the model must still agree)
 			switch r.Intn(4) {
 			case 0:
@@ -198,5 +200,6 @@ func vfGen(r *vu.Rng, kind string) []string {
 	for k := r.Intn(12); k > 0; k-- {
 		g.add("pop")
 	}
+	g.add("dump")
 	return g.ops
 }
